@@ -1,7 +1,7 @@
 /-
 C02 — enum conversions map each variant and payload field to its designated target.
 -/
-import O2oModel.Expand
+import O2oModel.Lemmas.Blocks
 namespace O2o
 
 /-- C02 (default arm): a variant without variant-level instruction, literal or pattern is mapped to the same-named
@@ -60,15 +60,36 @@ theorem C02_named_binding_use (f : Field) (ctx : ImplContext) (n : String) (idx 
   unfold renderStructLine
   simp [hm, hk, hv, hpost, ha, pure, Except.pure, i, colon, comma]
 
-/-- C02 (ghost variants, From side): a variant carrying an applicable `#[ghost]` produces no arm when converting
-    from the counterpart -/
+/-- C02 (ghost variants): a variant carrying an applicable `#[ghost]` produces no arm when converting from the
+    counterpart; when converting into it, it produces an arm only if the ghost declares a default -/
 theorem C02_ghost_variant_skipped (v : Variant) (ctx : ImplContext) (acc : TS) (g : FieldGhostAttrCore)
-    (hk : ctx.kind.isFrom = true) (hg : v.attrs.ghost ctx.ty ctx.kind = some g) :
-    (do
-      let attrs := v.attrs
-      if ctx.kind.isFrom && (attrs.ghost ctx.ty ctx.kind).isSome then return acc
-      if !ctx.kind.isFrom && (match attrs.ghost ctx.ty ctx.kind with | some g => g.action.isNone | none => false) then return acc
-      return acc ++ (← renderEnumLine v ctx) : E TS) = .ok acc := by
-  simp [hk, hg, pure, Except.pure]
+    (hg : v.attrs.ghost ctx.ty ctx.kind = some g) (h : ctx.kind.isFrom = true ∨ g.action = none) :
+    enumArmStep ctx acc v = .ok acc := by
+  unfold enumArmStep variantContributes ghostNoDefault
+  cases hk : ctx.kind.isFrom
+  · cases h with
+    | inl h => simp [hk] at h
+    | inr h => simp [hg, hk, h, pure, Except.pure]
+  · simp [hg, hk, pure, Except.pure]
+
+/-- C02 (all variants, declaration order): the arms of the generated `match` are exactly the arms of the contributing
+    variants, in declaration order — for any number of variants -/
+theorem C02_arms_eq_variants (input : Enum) (ctx : ImplContext) (out : TS) (h : enumInitBlock input ctx = .ok out) :
+    ∃ arms : List TS, arms.length = (input.variants.filter (variantContributes ctx)).length ∧
+      (∀ n (hn : n < arms.length) (hv : n < (input.variants.filter (variantContributes ctx)).length),
+        renderEnumLine ((input.variants.filter (variantContributes ctx))[n]) ctx = .ok arms[n]) ∧
+      ∃ rest, out = [Tok.group .brace (arms.flatten ++ rest)] := by
+  rw [enumInitBlock_eq] at h
+  cases h1 : (input.variants.filter (variantContributes ctx)).mapM (renderEnumLine · ctx) with
+  | error e => simp [h1, bind, Except.bind] at h
+  | ok arms =>
+    cases h2 : (enumGhostData input ctx).mapM (renderEnumGhostLine · ctx) with
+    | error e => simp [h1, h2, bind, Except.bind] at h
+    | ok gs =>
+      simp only [h1, h2, bind, Except.bind, pure, Except.pure, Except.ok.injEq] at h
+      have hlen := mapM_ok_length h1
+      refine ⟨arms, hlen, ?_, gs.flatten ++ defaultArm input ctx, by rw [← h]; simp [brace, List.append_assoc]⟩
+      intro n hn hv
+      exact mapM_ok_getElem h1 n hv hn
 
 end O2o
